@@ -37,7 +37,10 @@ def _proj_c09(ev, o):
 
 _MODELS = [
     dict(name="refcount", pkg="./refcountx", test="TestRefCount", coq_mod="RefCount.Spec", run_check="run_check_refcount",
-         corpus="refcount", project={"C08": _proj_c08, "C09": _proj_c09}, quick_n=1500, thorough_n=150000, nontrivial=nt_len(10), rule=_RULE),
+         corpus="refcount", project={"C08": _proj_c08, "C09": _proj_c09}, quick_n=1500, thorough_n=150000, nontrivial=nt_len(10), rule=_RULE,
+         # the same correspondence in the other regime (real scheduler, real parallelism), run in every check: oracle = the C08 /
+         # C09 invariants the model is proved to have (harness/refcountx/free_test.go)
+         free_search=dict(test="TestRefCountFree", props={"C08": [5], "C09": [6]}), free_always=True),
 ]
 _TRUSTED = SCHED_TRUSTED + [
     "modelled, not verified: context.WithCancel (a resolve context is cancelled by its cancel function or, synchronously, when the owner cancels the root context it derives from: event 14), sync.Mutex.TryLock succeeds exactly when no section is running (one segment at a time), CContainer.SetValue as an assignment",
